@@ -95,6 +95,20 @@ def gen_vals(rng, n, mode, kind="any"):
     return floats(rng, n)
 
 
+def seed_vals(rng, n, mode):
+    """seeds: mostly dense, sometimes all zeros, one-hot or sparse (rows of a Jacobian)"""
+    x = rng.random()
+    if x < 0.12:
+        return [0] * n
+    if x < 0.27:
+        v = [0] * n
+        v[rng.randrange(n)] = rng.choice([1, -2, 3])
+        return v
+    if x < 0.37:
+        return [rng.choice([0, 0, 1, -1]) for _ in range(n)]
+    return gen_vals(rng, n, mode)
+
+
 def all_shapes(maxrank, maxsize):
     out = []
     for r in range(1, maxrank + 1):
@@ -161,11 +175,22 @@ def fam_construct(rng, n, tier):
             v2[rng.randrange(cnt)] += 1
             L.append("new d %s %s" % (dims_s(s), vals_s(v2, "exact")))
             L.append("eq a d")
-        L.append("new e %s %s" % (dims_s(s + [1]), vals_s(vals, "exact")))
-        L.append("eq a e")             # same values, different dimensions
-        L.append("zeros z %s" % dims_s(s))
         L.append("flat f %s" % vals_s(vals, "exact"))
         L.append("eq f a")
+        L.append("new e %s %s" % (dims_s(s + [1]), vals_s(vals, "exact")))
+        L.append("eq a e")             # same values, different dimensions
+        # views and clones share the buffer: equality still looks at dimensions and values only
+        L.append("reshape v1 a %s" % dims_s([cnt]))
+        L.append("reshape v2 a %s" % dims_s(s + [1]))
+        L.append("reshape v3 a %s" % dims_s(s[::-1]))
+        L.append("reshape v4 v3 %s" % dims_s(s))
+        L.append("clone k a")
+        for x in ("v1", "v2", "v3", "v4", "k"):
+            L.append("eq a %s" % x)
+            L.append("eq %s a" % x)
+        L.append("eq v1 f")
+        L.append("eq v2 e")
+        L.append("zeros z %s" % dims_s(s))
         cases.append(Case(L, ("shape", tuple(s)), ["rank%d" % len(s), "valid"]))
     # nesting (arr! of arr!) up to depth 4
     for _ in range(max(20, n // 4)):
@@ -684,7 +709,7 @@ class Prog:
 
     def seed_for(self, v):
         s = self.fresh("s")
-        self.emit("new %s %s %s" % (s, dims_s(self.shape[v]), vals_s(gen_vals(self.rng, prod(self.shape[v]), self.mode), self.mode)))
+        self.emit("new %s %s %s" % (s, dims_s(self.shape[v]), vals_s(seed_vals(self.rng, prod(self.shape[v]), self.mode), self.mode)))
         self.shape[s] = list(self.shape[v])
         self.tr[s] = False
         self.leaf.add(s)
@@ -916,6 +941,7 @@ def fam_optim(rng, n, tier, mode="exact", frompass=True):
         for nm, s in zip(names, shapes):
             L.append("new %s %s %s" % (nm, dims_s(s), vals_s(gen_vals(rng, prod(s), mode), mode)))
             L.append("tracked %s" % nm)
+        reuse = False
         for rep in range(rng.randint(1, 3)):
             for nm, s, m in zip(names, shapes, mask):
                 if m or (rep > 0 and rng.random() < 0.5):
@@ -924,7 +950,14 @@ def fam_optim(rng, n, tier, mode="exact", frompass=True):
                     L.append("setgrad %s %s" % (nm, g))
             L.append("clone old %s" % names[0])
             lr = rng.choice([1, 2, Fraction(1, 2), Fraction(1, 4), -1]) if mode == "exact" else rng.uniform(0.001, 1.0)
-            L.append("gdupdate %s %s" % (sc(lr, mode), ",".join(names)))
+            if rep == 0:
+                reuse = rng.random() < 0.6
+                if reuse:
+                    L.append("gd G %s" % sc(lr, mode))
+            if reuse:
+                L.append("gdstep G %s" % ",".join(names))       # the same optimizer object, update after update
+            else:
+                L.append("gdupdate %s %s" % (sc(lr, mode), ",".join(names)))
             L.append("show old")
             L.append("snapshot")
             for nm in names:
@@ -1470,3 +1503,81 @@ def fam_alias(rng, n, tier, mode="exact"):
 
 
 FAMILIES.update({"alias": fam_alias})
+
+
+def fam_selfviews(rng, n, tier, mode="exact"):
+    """C01 / C02: an array combined with another handle of *itself* — a clone, a reshaped view with a
+    different alignment (outer-product style broadcasting), sum(0) — as both operands of one operation,
+    and further down a chain; gradients against the reference"""
+    cases = []
+    ops = ["mul", "add", "sub"] + (["div"] if mode != "exact" else [])
+    views = [("clone", lambda d: None), ("col", lambda d: [prod(d), 1]), ("row", lambda d: [1, prod(d)]),
+             ("flat", lambda d: [prod(d)]), ("sum0", lambda d: None)]
+    shapes = [[2], [3], [2, 2], [1, 3], [3, 1], [2, 1, 2]]
+    for s in shapes:
+        for op in ops:
+            for (vn, vf) in views:
+                for order in (0, 1):
+                    for tracked in ("both", "view-stopped"):
+                        L = ["new a %s %s" % (dims_s(s), vals_s(gen_vals(rng, prod(s), mode, "pos"), mode)), "tracked a"]
+                        if vn == "clone":
+                            L.append("clone v a")
+                            vd = s
+                        elif vn == "sum0":
+                            L.append("sum v a 0")
+                            vd = s
+                        else:
+                            vd = vf(s)
+                            L.append("reshape v a %s" % dims_s(vd))
+                        if tracked == "view-stopped":
+                            L.append("stop v")
+                        x, y = ("a", "v") if order == 0 else ("v", "a")
+                        if compat(s, vd) is None:
+                            continue
+                        L.append("%s r %s %s" % (op, x, y))
+                        od = compat(s, vd)
+                        L.append("new s %s %s" % (dims_s(od), vals_s(seed_vals(rng, prod(od), mode), mode)))
+                        L.append("backward r s")
+                        L += ["grad a", "grad v", "grad r"]
+                        L.append("mul q r r")
+                        L.append("backward q -")
+                        L += ["grad a", "grad v", "grad r"]
+                        cases.append(Case(L, ("sv", tuple(s), op, vn, order, tracked), [op, vn, tracked], mode,
+                                          nontrivial=(vn not in ("clone", "sum0"))))
+    for _ in range(n):
+        p = Prog(rng, mode)
+        a = p.new_leaf(tracked=True)
+        for _ in range(rng.randint(1, 3)):
+            cnt = prod(p.shape[a])
+            t = rng.choice([[cnt, 1], [1, cnt], [cnt]])
+            v = p.fresh("w")
+            p.emit("reshape %s %s %s" % (v, a, dims_s(t)))
+            p.shape[v] = t; p.tr[v] = True; p.inter.add(v); p.tainted.add(v)
+            if compat(p.shape[a], t) is not None:
+                p.op_binary(a=rng.choice([a, v]), b=rng.choice([a, v]))
+        for _ in range(rng.randint(0, 5)):
+            p.random_op()
+        r = rng.choice(sorted(p.inter & set(p.shape)))
+        p.backward(r)
+        p.read_all(probes=False)
+        cases.append(Case(p.L, ("svr", dag_key(p)), ["random"], mode))
+    return cases
+
+
+def fam_cost(rng, n, tier, mode="exact"):
+    """C15: the two cost closures applied directly to outputs of rank 1..4 (the divisor is the element
+    count for mse, the leading dimension for cross-entropy), with gradients"""
+    cases = []
+    shapes = all_shapes(4, 3) if tier == "thorough" else all_shapes(3, 3) + [[2, 3, 1, 2], [3, 1, 2, 2], [2, 2, 2, 2]]
+    for s in shapes:
+        for cost in (["mse"] if mode == "exact" else ["mse", "xent"]):
+            if mode == "exact" and (prod(s) & (prod(s) - 1)):
+                continue
+            L = ["new o %s %s" % (dims_s(s), vals_s(gen_vals(rng, prod(s), mode, "pos"), mode)), "tracked o",
+                 "new t %s %s" % (dims_s(s), vals_s(gen_vals(rng, prod(s), mode), mode)),
+                 "cost c %s o t" % cost, "sumall c", "backward c -", "grad o"]
+            cases.append(Case(L, ("cost", cost, tuple(s)), [cost, "rank%d" % len(s)], mode))
+    return cases
+
+
+FAMILIES.update({"selfviews": fam_selfviews, "cost": fam_cost})
